@@ -329,6 +329,7 @@ pub fn run_cases(cx: &mut Cx, cases: Vec<(u64, Case)>, merge_runs: bool) {
     let mut n_valid = 0u64;
     let mut n_unspec = 0u64;
     let mut n_states = 0u64;
+    let t_start = std::time::Instant::now();
     for (sub, c) in cases {
         if !cx.case(sub) {
             continue;
@@ -381,12 +382,14 @@ pub fn run_cases(cx: &mut Cx, cases: Vec<(u64, Case)>, merge_runs: bool) {
             }
         }
     }
+    cx.count("stage_us:classify", t_start.elapsed().as_micros() as u64);
+    let t_start = std::time::Instant::now();
     // value check: one package for all batchable accepted cases
     let mut batch = String::new();
     let mut n_batch = 0;
     for (j, (_, c)) in accepted.iter().enumerate() {
         if let Prog::Tail(t) = &c.prog {
-            batch += &format!("fn f{j}{t}\n");
+            batch += &format!("fn case{j}{t}\n");
             n_batch += 1;
         }
     }
@@ -395,9 +398,21 @@ pub fn run_cases(cx: &mut Cx, cases: Vec<(u64, Case)>, merge_runs: bool) {
         n_trans += 1;
         match full_compile(&rt, &batch) {
             Ok(p) => pkg = Some(p),
-            Err(_) => cx.count("batch_compile_failed_fell_back_to_single", 1),
+            Err(v) => {
+                cx.count("batch_compile_failed_fell_back_to_single", 1);
+                cx.note(format!(
+                    "batch compile failed ({}), cases compiled one by one",
+                    match v {
+                        Verdict::Reject(k) => format!("errors: {k}"),
+                        Verdict::Panic(p) => format!("panic: {p}"),
+                        Verdict::Accept => String::new(),
+                    }
+                ));
+            }
         }
     }
+    cx.count("stage_us:batch_compile", t_start.elapsed().as_micros() as u64);
+    let t_start = std::time::Instant::now();
     for (j, (sub, c)) in accepted.iter().enumerate() {
         if !cx.case(*sub) {
             continue;
@@ -413,7 +428,7 @@ pub fn run_cases(cx: &mut Cx, cases: Vec<(u64, Case)>, merge_runs: bool) {
         let observed: Result<Val, Verdict> = match (&c.prog, pkg.as_mut()) {
             (Prog::Tail(_), Some(p)) => {
                 n_trans += 1;
-                call_fn(p, &format!("f{j}"), c.ret).map_err(Verdict::Reject)
+                call_fn(p, &format!("case{j}"), c.ret).map_err(Verdict::Reject)
             }
             _ => {
                 n_trans += 2;
@@ -455,6 +470,7 @@ pub fn run_cases(cx: &mut Cx, cases: Vec<(u64, Case)>, merge_runs: bool) {
             Err(Verdict::Accept) => unreachable!(),
         }
     }
+    cx.count("stage_us:call_and_compare", t_start.elapsed().as_micros() as u64);
     sink.flush(cx);
     cx.states(n_states);
     cx.transitions(n_trans);
